@@ -206,7 +206,7 @@ Proof.
     { intros fl lr. assert (Ht : is_tmsg f = true) by (unfold is_tmsg; rewrite Ety; reflexivity).
       destruct (is_oneof_wrapper m) eqn:Ew2; cbn [shape_b];
         rewrite (card_ok_b f item Hc), Hk, Ht, Hv, Ef, ref_eqb_refl, Ew2; reflexivity. }
-    destruct (lookup st (msg_key m)) eqn:El; cbn [obind] in H.
+    destruct (lookup st (msg_key m)) as [en|] eqn:El; [destruct (is_enum_entry en); cbn [obind] in H; [discriminate|]|cbn [obind] in H].
     + inversion H; subst st1 s. split; [exact HI|apply Hshape].
     + destruct (rec ((msg_key m, Placeholder) :: st) m) as [[st2 r]| | |] eqn:Er; cbn [obind] in H; try discriminate.
       inversion H; subst st1 s.
